@@ -36,6 +36,7 @@ type c12env struct {
 	cmpCtr  *doubles.Counter
 	marCtr  *doubles.Counter
 	loadAt  int // fail the n-th Load (0 = none)
+	loadAt2 int
 	loadHit bool
 }
 
@@ -56,7 +57,7 @@ func buildC12(seed uint64, cfg kinds.Cfg, recipe int) (*c12state, error) {
 	e.Marshal = doubles.CountingMarshal(ce.marCtr, json.Marshal)
 	e.Compare = doubles.CountingCompare(ce.cmpCtr, mast.DefaultKeyCompare(e.Marshal))
 	e.Store.FailLoad = func(n int, name string) error {
-		if ce.loadAt != 0 && n == ce.loadAt {
+		if (ce.loadAt != 0 && n == ce.loadAt) || (ce.loadAt2 != 0 && n == ce.loadAt2) {
 			ce.loadHit = true
 			return doubles.ErrInjected
 		}
@@ -285,9 +286,10 @@ func runC12(c *fw.C) {
 		limit = 80
 	}
 	type fault struct {
-		kind string
-		at   int
-		at2  int // second fault of the same kind (pairs), 0 = none
+		kind  string
+		at    int
+		kind2 string // second fault (pairs), "" = none
+		at2   int
 	}
 	var faults []fault
 	for _, kc := range []struct {
@@ -301,6 +303,23 @@ func runC12(c *fw.C) {
 			for j := 0; j < 6; j++ {
 				faults = append(faults, fault{kind: kc.k, at: r.Range(limit+1, kc.n)})
 			}
+		}
+	}
+	if c.Tier == "thorough" { // sampled pairs of faults (the second matters when the first is absorbed)
+		tot := []struct {
+			k string
+			n int
+		}{{"load", nLoad}, {"compare", nCmp}, {"marshal", nMar}}
+		for j := 0; j < 12; j++ {
+			a, b := tot[r.Intn(3)], tot[r.Intn(3)]
+			if a.n == 0 || b.n == 0 {
+				continue
+			}
+			f := fault{kind: a.k, at: r.Range(1, a.n), kind2: b.k, at2: r.Range(1, b.n)}
+			if f.kind == f.kind2 && f.at == f.at2 {
+				continue
+			}
+			faults = append(faults, f)
 		}
 	}
 	for _, f := range faults {
@@ -321,6 +340,25 @@ func runC12(c *fw.C) {
 		case "marshal":
 			s2.env.marCtr.FailAt = int64(f.at)
 		}
+		switch f.kind2 {
+		case "load":
+			s2.env.loadAt2 = f.at2
+		case "compare":
+			if s2.env.cmpCtr.FailAt == 0 {
+				s2.env.cmpCtr.FailAt = int64(f.at2)
+			} else {
+				s2.env.cmpCtr.FailAt2 = int64(f.at2)
+			}
+		case "marshal":
+			if s2.env.marCtr.FailAt == 0 {
+				s2.env.marCtr.FailAt = int64(f.at2)
+			} else {
+				s2.env.marCtr.FailAt2 = int64(f.at2)
+			}
+		}
+		if f.kind2 != "" {
+			c.Obs("fault_pairs_run", 1)
+		}
 		var opErr error
 		panicked := false
 		func() {
@@ -333,9 +371,9 @@ func runC12(c *fw.C) {
 		}()
 		hit := s2.env.loadHit || s2.env.cmpCtr.Hit > 0 || s2.env.marCtr.Hit > 0
 		// clear the fault
-		s2.env.loadAt = 0
-		s2.env.cmpCtr.FailAt = 0
-		s2.env.marCtr.FailAt = 0
+		s2.env.loadAt, s2.env.loadAt2 = 0, 0
+		s2.env.cmpCtr.FailAt, s2.env.cmpCtr.FailAt2 = 0, 0
+		s2.env.marCtr.FailAt, s2.env.marCtr.FailAt2 = 0, 0
 		if !hit {
 			c.Obs("faults_not_reached", 1)
 			continue
